@@ -79,6 +79,12 @@ func presetFor(c *Ctx, id string, i int) *HistOpts {
 		o.Gen.InvalidPct = 10
 		o.Gen.MaxTx = 12
 		o.Gen.Evidence, o.Gen.Absent = 0, 0
+		if i%8 == 3 {
+			// one long-lived process: cumulative effects across many blocks (gas pools, caches, journals)
+			o.Blocks = 150
+			o.Gen.MaxTx = 14
+			w["call"], w["deploy"] = 90, 6
+		}
 	case "C16":
 		o.Gen.EVM, o.UseRef = true, true
 		w["deploy"], w["call"], w["xfer2contract"] = 5, 20, 6
